@@ -211,6 +211,8 @@ func main() {
 	eng.timeoutMs = *timeoutMs
 	eng.seed = seed
 	eng.verbose = *verbose
+	eng.tier = *tier
+	replayTier = *tier
 	specs := eng.FindHarnesses(*prop)
 	var sel []*HarnessSpec
 	for _, s := range specs {
@@ -402,8 +404,21 @@ func report(eng *Engine, prop, tier string, seed int, specs []*HarnessSpec, resu
 			fmt.Printf("INCOMPLETE property=%s harness=%s unsupported=%d truncated=%v unwind_failures=%d unknown=%d missing_covers=%v\n",
 				prop, h.Name, len(h.Unsupported), h.Truncated, h.UnwindFail, h.Solver.Unknown+h.AssertsUnk, missing)
 			if verbose || true {
+				grouped := map[string]int{}
+				example := map[string]string{}
 				for m, n := range h.Unsupported {
-					fmt.Printf("  unsupported x%d: %s\n", n, firstLines(m, 30))
+					k := firstLines(m, 1)
+					grouped[k] += n
+					example[k] = m
+				}
+				shown := 0
+				for k, n := range grouped {
+					if shown >= 6 {
+						fmt.Printf("  ... %d more kinds of unsupported operations\n", len(grouped)-shown)
+						break
+					}
+					shown++
+					fmt.Printf("  unsupported x%d: %s\n", n, firstLines(example[k], 14))
 				}
 				seenN := map[string]bool{}
 				for _, n := range h.Notes {
@@ -709,7 +724,7 @@ func runNative(replayPath, verifDir, repo, gowork string, files []*harnessFile, 
 	os.WriteFile(ovf, ovb, 0o644)
 	cmd := exec.Command("go", "test", "-vet=off", "-count=1", "-tags", "verif", "-overlay", ovf, "-run", "^TestZZReplay$", "-v", "-timeout", "120s", ".")
 	cmd.Dir = filepath.Join(repo, hf.pkgDir)
-	cmd.Env = append(goEnv(gowork), "VERIF_REPLAY="+replayPath)
+	cmd.Env = append(goEnv(gowork), "VERIF_REPLAY="+replayPath, "VERIF_TIER="+replayTier)
 	out, _ := cmd.CombinedOutput()
 	so := string(out)
 	var line string
@@ -733,6 +748,8 @@ func runNative(replayPath, verifDir, repo, gowork string, files []*harnessFile, 
 	}
 	return false, line
 }
+
+var replayTier = "quick"
 
 func tail(s string, n int) string {
 	ls := strings.Split(strings.TrimSpace(s), "\n")
